@@ -128,12 +128,19 @@ def lattices(ctx):
     points = list(itertools.product(coords, coords))
     rects = [((0, 0), (3, 3)), ((0, 1), (3, 2)), ((0, 0), (3, 0)), ((1, 0), (1, 3)),
              ((1, 1), (1, 1))]
+    trects = [((0.1, 0.3), (0.7, 0.9))]
     if ctx.thorough:
-        rects += [((-1, 0), (4, 2)), ((0, 0), (1, 1)), ((2, -2), (5, 5))]
+        # every rectangle (min <= max, degenerate ones included) with corners on a 5x5 sub-lattice
+        rects = [((x_a, y_a), (x_b, y_b)) for x_a in range(5) for x_b in range(x_a, 5)
+                 for y_a in range(5) for y_b in range(y_a, 5)]
+        rects += [((-1, 0), (4, 2)), ((2, -2), (5, 5))]
+        marks = (0.1, 0.3, 0.7, 0.9)
+        trects = [((x_a, y_a), (x_b, y_b)) for i, x_a in enumerate(marks) for x_b in marks[i:]
+                  for j, y_a in enumerate(marks) for y_b in marks[j:]]
     out = [("int", [(a, b) for a in points for b in points], rects)]
     tenths = [k / 10 for k in range(-3, 14, 2)]
     tpts = list(itertools.product(tenths, tenths))
-    out.append(("tenths", [(a, b) for a in tpts for b in tpts], [((0.1, 0.3), (0.7, 0.9))]))
+    out.append(("tenths", [(a, b) for a in tpts for b in tpts], trects))
     shift = 10 ** 6
     big = [(float(x + shift), float(y + shift)) for x, y in points]
     out.append(("shifted", [(a, b) for a in big for b in big],
@@ -192,7 +199,8 @@ def run(ctx):
         "rule": "all segments with both endpoints on an 8x8 lattice (4096 per rectangle: every "
                 "region pair, grazing, vertical/horizontal/zero-length) x rectangles incl. zero-"
                 "height, zero-width and point; the same lattice in tenths, shifted by 1e6 and "
-                "scaled by 1e-3; a seed-derived extra rectangle; non-trivial = the exact inside "
+                "scaled by 1e-3; a seed-derived extra rectangle; thorough: all 225 rectangles with "
+                "corners on a 5x5 sub-lattice and all 100 on four tenths marks; non-trivial = the exact inside "
                 "part is a proper sub-segment (clipping shortened it); all cases distinct",
         "samples": core.rotate(part.samples, ctx.seed, 4),
         "grazing_or_single_point_cases": cnt.get("grazing_or_point", 0),
